@@ -615,10 +615,28 @@ fn derive_func_op_shape(def: &FuncOpDef, symbol_table: &mut BTreeMap<Rc<str>, Sh
             }
             // Return type is acc's shape narrowed against func.ret
             match &func_shape {
+                // Nothing is known about what the callback returns.
+                Shape::Func(fdef)
+                    if matches!(
+                        fdef.ret.as_ref(),
+                        Shape::Narrowed(NarrowedShape {
+                            types: NarrowingShape::Any,
+                            ..
+                        })
+                    ) =>
+                {
+                    fdef.ret.as_ref().clone().with_pos(pos.clone())
+                }
                 Shape::Func(fdef) => {
                     let narrowed = acc_shape.narrow(&fdef.ret, symbol_table);
                     match narrowed {
-                        Shape::TypeErr(_, _) => acc_shape,
+                        // The accumulator comes back as it is for an empty
+                        // target, anything else yields what the callback
+                        // returned last. Either is possible when they differ.
+                        Shape::TypeErr(_, _) => Shape::Narrowed(NarrowedShape::new_with_pos(
+                            vec![acc_shape, fdef.ret.as_ref().clone()],
+                            pos.clone(),
+                        )),
                         other => other,
                     }
                 }
